@@ -169,7 +169,14 @@ func eval(c Case, dir string) hx.Result {
 		injections := 0
 		for step, op := range c.History {
 			initial := func() *oci.Spec {
-				return &oci.Spec{Process: &oci.Process{Env: []string{"PATH=/bin"}, User: oci.User{UID: 1000}}}
+				// the OCI spec already lists devices at the paths the templates use, with other types and
+				// numbers (what a runtime, or an injection before the host changed, put there): an injected
+				// node replaces them, and what the Spec leaves open comes from the host as it is now
+				return &oci.Spec{Process: &oci.Process{Env: []string{"PATH=/bin"}, User: oci.User{UID: 1000}},
+					Linux: &oci.Linux{Devices: []oci.LinuxDevice{
+						{Path: nodes.Path("char"), Type: "b", Major: 99, Minor: 98}, {Path: nodes.Path("block"), Type: "c", Major: 97, Minor: 96},
+						{Path: nodes.Path("fifo"), Type: "c", Major: 95, Minor: 94}, {Path: nodes.Path("char2"), Type: "p"},
+						{Path: "/dev/ctr-c", Type: "b", Major: 93, Minor: 92}, {Path: "/dev/unrelated", Type: "c", Major: 1, Minor: 3}}}}
 			}
 			var wantEdits specs.ContainerEdits
 			var applyErr error
